@@ -152,7 +152,10 @@ fn run_scenario(sc: &Value, idx: usize, bin: &Path, scratch: &Path, local: bool)
             bps = rs.iter().map(|x| match x.as_str().unwrap() { "current" => json!({"current": true}), "other" => json!("heroku/procfile"), ws => json!({"workspace": ws.trim_start_matches("ws:")}) }).collect();
         }
         cfg["buildpacks"] = json!(bps);
-        let cargo = Command::new("rustup").args(["which", "cargo"]).output().ok().filter(|o| o.status.success()).map(|o| String::from_utf8_lossy(&o.stdout).trim().to_string()).unwrap_or_else(|| "/usr/bin/cargo".into());
+        let cargo = Command::new("rustup").args(["which", "cargo"]).output().ok().filter(|o| o.status.success()).map(|o| String::from_utf8_lossy(&o.stdout).trim().to_string()).or_else(|| {
+            // no rustup: the first cargo on PATH
+            std::env::var_os("PATH").and_then(|p| std::env::split_paths(&p).map(|d| d.join("cargo")).find(|c| c.is_file())).map(|c| c.to_string_lossy().to_string())
+        }).unwrap_or_else(|| "/usr/bin/cargo".into());
         toolchain_bin = Path::new(&cargo).parent().unwrap().to_string_lossy().to_string();
         // the musl targets libcnb-test builds for are not installed in this sandbox: like docker and
         // pack, the cross toolchain is a stand-in - a `cargo` on PATH that builds for the host's gnu
@@ -201,6 +204,10 @@ fn run_scenario(sc: &Value, idx: usize, bin: &Path, scratch: &Path, local: bool)
     if local {
         command.env("PATH", format!("{}:{toolchain_bin}:/usr/bin:/bin", d.join("bin").display())).env("CARGO", format!("{toolchain_bin}/cargo"))
             .env("CARGO_NET_OFFLINE", "true").env("CARGO_HOME", d.join("cargo-home")).env("CARGO_TERM_QUIET", "true");
+        // (should that cargo be a rustup proxy after all, it finds its toolchains although HOME is the temp dir)
+        let real_home = std::env::var_os("HOME").map(PathBuf::from).unwrap_or_default();
+        command.env("RUSTUP_HOME", std::env::var_os("RUSTUP_HOME").map(PathBuf::from).unwrap_or_else(|| real_home.join(".rustup")));
+        if let Some(tc) = std::env::var_os("RUSTUP_TOOLCHAIN") { command.env("RUSTUP_TOOLCHAIN", tc); }
     }
     let out = command.output().expect("scenario");
     let code = out.status.code();
